@@ -329,7 +329,7 @@ def replay_counterexample(h, scratch, prop):
     log = os.path.join(scratch, name + ".playback.log")
     cmd = kani_cmd(h, tdir, extra=["-Z", "concrete-playback", "--concrete-playback=print"])
     # producing the trace needs far more memory (kani-driver parses CBMC's JSON trace)
-    rc, _ = run_limited(cmd, cwd, env, float(h["timeout"]) * TIMEOUT_SCALE * 1.5, max(24.0, float(h["mem"]) * 2), log)
+    rc, _ = run_limited(cmd, cwd, env, float(h["timeout"]) * TIMEOUT_SCALE * 1.5, max(24.0, float(h["mem"]) * 3), log)
     text = open(log, errors="replace").read()
     test = extract_playback_test(text)
     os.makedirs(os.path.join(REPLAY_DIR, prop), exist_ok=True)
